@@ -521,7 +521,14 @@ var syncMethods = map[string]string{
 
 func (fi *fileInstr) rewriteCall(call *ast.CallExpr) {
 	info := fi.pkg.TypesInfo
-	sel, ok := call.Fun.(*ast.SelectorExpr)
+	fun := call.Fun
+	switch ix := fun.(type) { // explicit instantiation: sync.OnceValue[int](f)
+	case *ast.IndexExpr:
+		fun = ix.X
+	case *ast.IndexListExpr:
+		fun = ix.X
+	}
+	sel, ok := fun.(*ast.SelectorExpr)
 	if !ok {
 		return
 	}
@@ -544,6 +551,10 @@ func (fi *fileInstr) rewriteCall(call *ast.CallExpr) {
 			fi.keepRefs[fi.text(sel)+"[map[int]int]"] = true
 			fi.replace(sel.Pos(), sel.End(), "simrt.Maps"+obj.Name())
 			report.MapRangeSites++
+		} else if obj.Pkg().Path() == "sync" && (obj.Name() == "OnceFunc" || obj.Name() == "OnceValue" || obj.Name() == "OnceValues") {
+			fi.keepRefs[fi.text(sel)+map[string]string{"OnceFunc": "", "OnceValue": "[int]", "OnceValues": "[int, int]"}[obj.Name()]] = true
+			fi.replace(sel.Pos(), sel.End(), "simrt."+obj.Name())
+			report.SyncSites++
 		} else if obj.Pkg().Path() == "sync/atomic" {
 			report.SyncSites++ // handled at statement level (records)
 		}
